@@ -547,6 +547,7 @@ void urcu_bp_register(void)
 	sigset_t newmask, oldmask;
 	int ret;
 
+	urcu_verif_point(URCU_VP_BP_REGISTER_ENTRY, NULL);
 	ret = sigfillset(&newmask);
 	if (ret)
 		abort();
@@ -588,6 +589,7 @@ void urcu_bp_unregister(struct rcu_reader *rcu_reader_reg)
 	sigset_t newmask, oldmask;
 	int ret;
 
+	urcu_verif_point(URCU_VP_BP_UNREGISTER_ENTRY, rcu_reader_reg);
 	ret = sigfillset(&newmask);
 	if (ret)
 		abort();
